@@ -27,22 +27,16 @@ impl Driver {
         Driver { child, stdin, stdout }
     }
 
-    pub fn call(&mut self, cmd: &Value) -> Value {
+    /// Err = the process died (or answered garbage) while handling this command
+    pub fn try_call(&mut self, cmd: &Value) -> Result<Value, String> {
         let line = serde_json::to_string(cmd).unwrap();
         if writeln!(self.stdin, "{line}").and_then(|_| self.stdin.flush()).is_err() {
-            eprintln!("INCONCLUSIVE: the jet1090 driver process went away");
-            std::process::exit(2);
+            return Err("the jet1090 driver process went away".into());
         }
         let mut out = String::new();
         match self.stdout.read_line(&mut out) {
-            Ok(n) if n > 0 => serde_json::from_str(&out).unwrap_or_else(|e| {
-                eprintln!("INCONCLUSIVE: unparsable driver answer ({e}): {out}");
-                std::process::exit(2)
-            }),
-            _ => {
-                eprintln!("INCONCLUSIVE: the jet1090 driver process closed its output (command: {})", &line[..line.len().min(300)]);
-                std::process::exit(2)
-            }
+            Ok(n) if n > 0 => serde_json::from_str(&out).map_err(|e| format!("unparsable driver answer ({e}): {out}")),
+            _ => Err("the jet1090 driver process closed its output".into()),
         }
     }
 }
@@ -72,5 +66,26 @@ impl Pool {
             *g = Some(Driver::spawn());
         }
         f(g.as_mut().unwrap())
+    }
+    /// One command. When the driver process dies on it, a fresh process gets the same command once more; a second
+    /// death is reported to the caller as `{"driver_crashed": msg}` (deterministic: the real code aborted on this
+    /// input twice), which the checks turn into a violation with the command as replay.
+    pub fn call(&self, cmd: &Value) -> Value {
+        let idx = rayon::current_thread_index().unwrap_or(0) % self.slots.len();
+        let mut g = self.slots[idx].lock().unwrap();
+        let mut last = String::new();
+        for _attempt in 0..2 {
+            if g.is_none() {
+                *g = Some(Driver::spawn());
+            }
+            match g.as_mut().unwrap().try_call(cmd) {
+                Ok(v) => return v,
+                Err(e) => {
+                    last = e;
+                    *g = None; // drop kills and reaps the child
+                }
+            }
+        }
+        serde_json::json!({"driver_crashed": last})
     }
 }
